@@ -1,7 +1,7 @@
 ------------------------------- MODULE MCRun -------------------------------
 (* Model-checking instance helpers for BreadlogRun (TLC configuration files cannot spell negative
    numbers, and several configurations share these sets). *)
-EXTENDS BreadlogRun
+EXTENDS BreadlogRun, Json
 
 LocksSmall == {LAbsent, LCorrupt, 1, 2, MaxId}
 LocksAll   == {LAbsent, LCorrupt} \cup 0..MaxId
@@ -9,6 +9,17 @@ LocksNone  == {LAbsent}
 LocksAbsentOrCorrupt == {LAbsent, LCorrupt}
 RefsBoundary == {0, 1, MaxId - 1, MaxId}
 RefsLow == {1, 2}
+LocksAbsentOr3 == {LAbsent, 3}
+
+(* every pre-state (initial state) of a configuration, printed once: the replay input of C01/C16 *)
+DumpInit == (p.pc = "idle" /\ g.runs = 0) =>
+               PrintT("INIT|" \o ToJson([tree |-> tree, lock |-> lock, present |-> present, bad |-> bad]))
+
+(* replay input: printed once per finished behaviour during simulation.  The final abstract state the model
+   predicts is included so that the replay can compare (set of IDs per run is order-dependent; the lock and
+   the multiset of references are not). *)
+DumpHist == (RecordHist /\ p.pc = "idle" /\ g.runs = MaxRuns /\ g.exit # XNone) =>
+               PrintT("HIST|" \o ToJson([hist |-> g.hist, lock |-> lock, tree |-> tree, exit |-> g.exit]))
 
 (* state constraint used by history configurations: bounds the size of the ghost relation *)
 SmallHistory == Cardinality(g.written) <= 6
